@@ -71,6 +71,9 @@ func nextHeightGuard(gcbh *types.Func) eng.NamedGuard {
 }
 
 func runC13(c *core.Ctx) {
+	// the tip (block store) becomes durable before the state that belongs to it: otherwise a fault between the
+	// commits leaves the accumulator one leaf ahead of the tip and the next block-root check compares against it
+	checkCommitOrder(c, "C13.tip-durable-first")
 	checkHeightUnderLock(c)
 	gcbh := eng.Obj(c, pkLedger, "LedgerStoreImp.GetCurrentBlockHeight")
 	vh := eng.Obj(c, pkLedger, "LedgerStoreImp.verifyHeader")
